@@ -160,6 +160,7 @@ Lemma sv_set_idle : forall b s, same_view s (set_idle b s). Proof. intros; sv. Q
 Lemma sv_set_wk : forall n s, same_view s (set_wk n s). Proof. intros; sv. Qed.
 Lemma sv_set_toexit : forall b s, same_view s (set_toexit b s). Proof. intros; sv. Qed.
 Lemma sv_set_sset : forall l s, same_view s (set_sset l s). Proof. intros; sv. Qed.
+Lemma sv_set_tphases : forall l s, same_view s (set_tphases l s). Proof. intros; sv. Qed.
 Lemma sv_set_erdl : forall l s, same_view s (set_erdl l s). Proof. intros; sv. Qed.
 
 Lemma sv_edge : forall x s, same_view s (edge x s).
@@ -184,6 +185,7 @@ Qed.
 Definition quiet (e : ev) : Prop :=
   match e with
   | EWake => True
+  | ETimer => True
   | EAct (AAdd _) 0 => False
   | EAct _ _ => True
   | _ => False
@@ -379,8 +381,15 @@ Proof.
     apply quiet_step; simpl; auto.
     + eapply sv_trans; [apply sv_set_wk|apply sv_edge].
     + rewrite parr_edge; auto.
-  - (* exit *)
-    apply quiet_step; simpl; auto. apply sv_set_toexit.
+  - (* exit: to_exit = EXIT, then the wake-up *)
+    apply quiet_step; simpl; auto.
+    + eapply sv_trans; [apply sv_set_toexit|]. eapply sv_trans; [apply sv_set_wk|apply sv_edge].
+    + rewrite parr_edge; auto.
+  - (* reset of the connection by the peer *)
+    destruct (can_reset (cx s y)); [|apply quiet_step; simpl; auto using sv_refl].
+    apply quiet_step; simpl; auto.
+    + eapply sv_trans; [apply sv_updc|apply sv_edge]; auto.
+    + rewrite ?parr_edge; auto.
 Qed.
 
 Lemma Inv_do_acts : forall l s, Inv s -> Inv (do_acts l s) /\ ext s (do_acts l s).
@@ -424,7 +433,7 @@ Qed.
 
 Lemma Inv_set_flag : forall x s, Inv s -> Inv (set_flag x s) /\ ext s (set_flag x s).
 Proof.
-  intros. unfold set_flag. assert (V : same_view s (updc x (mkC (ckind (cx s x)) (cq (cx s x)) (ceof (cx s x)) (cpopen (cx s x)) (csht (cx s x)) true (cadded (cx s x)) (cregok (cx s x)) (cclosed (cx s x)) (coff (cx s x))) s)) by (apply sv_updc; auto).
+  intros. unfold set_flag. assert (V : same_view s (updc x (mkC (ckind (cx s x)) (cq (cx s x)) (ceof (cx s x)) (cpopen (cx s x)) (csht (cx s x)) true (cadded (cx s x)) (cregok (cx s x)) (cclosed (cx s x)) (coff (cx s x)) (crst (cx s x))) s)) by (apply sv_updc; auto).
   split; [eapply Inv_view; eauto|apply sv_ext; auto].
 Qed.
 
@@ -721,15 +730,32 @@ Proof.
     apply Inv_ep_walk; auto. intros x Hx. apply Hr; auto.
 Qed.
 
-Lemma Inv_iter : forall o s, Inv s -> Inv (iter o s) /\ bk (iter o s) = bk s.
+(* the timer callback: a tick, then the next timer phase (or the exit after the last one) *)
+Lemma Inv_cb_timer : forall s, Inv s -> Inv (cb_timer s) /\ ext s (cb_timer s).
 Proof.
-  intros o s I. unfold iter. destruct (oidle o).
-  - destruct (Inv_dispatch (orep o) (on o) (inject s)) as [A B]; [eapply Inv_view; [apply sv_inject|auto]|].
-    split; auto. rewrite B. apply (v_bk _ _ (sv_inject s)).
-  - apply Inv_dispatch; auto.
+  intros s I. unfold cb_timer.
+  destruct (quiet_step ETimer s s Logic.I (sv_refl s) eq_refl I) as [I1 E1].
+  set (s1 := emit ETimer s) in *.
+  destruct (tphases s1) as [|p rest] eqn:P.
+  - destruct (Inv_do_act AExit _ I1) as [I2 E2]. split; auto. eapply ext_trans; eauto.
+  - assert (I2 : Inv (set_tphases rest s1)) by (eapply Inv_view; [apply sv_set_tphases|auto]).
+    destruct (Inv_do_acts p _ I2) as [I3 E3]. split; auto.
+    eapply ext_trans; [apply E1|]. eapply ext_trans; [|apply E3]. apply sv_ext; auto. apply sv_set_tphases.
 Qed.
 
-(* the epilogue of muggle_evloop_run *)
+Lemma Inv_iter : forall o s, Inv s -> Inv (iter o s) /\ bk (iter o s) = bk s.
+Proof.
+  intros o s I. unfold iter.
+  assert (D : Inv (dispatch (orep o) (on o) (if oidle o then inject s else s)) /\
+              bk (dispatch (orep o) (on o) (if oidle o then inject s else s)) = bk s).
+  { destruct (oidle o).
+    - destruct (Inv_dispatch (orep o) (on o) (inject s)) as [A B]; [eapply Inv_view; [apply sv_inject|auto]|].
+      split; auto. rewrite B. apply (v_bk _ _ (sv_inject s)).
+    - apply Inv_dispatch; auto. }
+  destruct D as [A B]. destruct (tmr _); [|auto].
+  destruct (Inv_cb_timer _ A) as [A2 E2]. split; auto. rewrite (e_bk _ _ E2). auto.
+Qed.
+
 Lemma finish_tr : forall s, tr (finish s) = EExit :: rev (map EClear (clist s)) ++ tr s.
 Proof.
   intros s. unfold finish. simpl. f_equal.
@@ -887,7 +913,7 @@ Qed.
 Definition example_script : script :=
   mkScr 8 [(1, KUnix); (2, KUnix); (3, KUnix)]
         [[AAdd 3; AAdd 2; AAdd 1; AWrite 1 5; AWrite 3 5]]
-        [mkT 1 5 (AWrite 2 7); mkT 2 7 (AShut 2)].
+        [mkT 1 5 (AWrite 2 7); mkT 2 7 (AShut 2)] false [].
 
 Example life_nonvacuous : forall b, exists os s,
   runs b example_script os = (s, true) /\
